@@ -366,6 +366,66 @@ def reflow_root_is_first_pass_root(prog, rep, R):
     if not rep.check(of is not None, R, "anchor:OLF::format", "OptimisingLineFormatter::format not found"):
         return
 
+    # ---- the table form: both passes read the root of a line from one table built up front (`roots[i]`); then the two decisions agree by
+    # construction, and what has to hold is that the table is right: (a) the one-step map sends a line to its live parent (parent exists
+    # and is not voided) and otherwise to itself, (b) the table follows that map until a line is its own image (a loop whose exit test
+    # is `map[x] == x`, not a fixed number of steps), (c) the first pass takes exactly the lines with roots[i] == i
+    tfn = [prog.body(norm(c.t.get("resolved") or c.callee or "")) for c in of.calls()]
+    tfn = [x for x in tfn if x is not None and x.npath.startswith(OLF) and x.locals[0]["ty"].replace(" ", "") in ("alloc::vec::Vec<usize>", "Vec<usize>")]
+    if tfn:
+        from table import Table as _T, TooComplex as _TC, render as _render
+        T0 = tfn[0]
+        fam_t = [T0] + [x for x in prog.bodies.values() if x.npath.startswith(T0.npath + "::")]
+        bad_t = []
+        step_ok = False
+        for x in fam_t:
+            if x is T0 or x.locals[0]["ty"] != "usize" or x.loops():
+                continue
+            try:
+                tb = _T(prog, x, inline=1)
+            except _TC:
+                continue
+            rows_ok, seen = True, set()
+            for cons, res in tb.rows:
+                r = _render(res)
+                selfidx = bool(re.match(r"^place:arg\d+\.0$", r))
+                kinds = []
+                for c in cons:
+                    k1 = str(c[1])
+                    if c[0] == "is" and k1.endswith(".parent") and c[2] in ("Some", "None"):
+                        kinds.append("P" + c[2])
+                    elif c[0] == "is" and k1.startswith("get(") and c[2] in ("Some", "None"):
+                        kinds.append("G" + c[2])
+                    elif k1.endswith(".line_type") and (c[2] == "Voided" or c[2] == ("Voided",)):
+                        kinds.append("V" if c[0] == "is" else "notV")
+                    else:
+                        kinds.append("?" + k1[:30])
+                if any(k.startswith("?") for k in kinds):
+                    continue
+                live = "PSome" in kinds and "GSome" in kinds and "notV" in kinds
+                seen.add("live" if live else "dead")
+                rows_ok &= (not selfidx) if live else selfidx
+            if len(tb.rows) >= 3 and seen == {"live", "dead"} and rows_ok:
+                step_ok = True
+        if not step_ok:
+            bad_t.append("its one-step map is not `the live parent (exists, not voided), else the line itself`")
+        fix = False
+        for x in fam_t:
+            for h, L in x.loops().items():
+                for bb in L:
+                    t = x.blocks[bb]["term"]
+                    if t["k"] == "switch" and re.match(r"^(Ne|Eq)\(index\((.+),var:(\w+)\),var:\3\)$", canon(x, t["discr"])) and any(s2 not in L for s2 in x.succ[bb]):
+                        fix = True
+        if not fix:
+            bad_t.append("it does not follow the map until a line is its own image (no loop that ends on `map[x] == x`): lines nested deeper than the number of steps taken get an intermediate child line as root")
+        first_ok = any(re.match(r"^Eq\(index\((.+),(.+)\),\2\)$", canon(x, x.blocks[bb]["term"]["discr"])) or re.match(r"^Eq\((.+),index\((.+),\1\)\)$", canon(x, x.blocks[bb]["term"]["discr"]))
+                       for x in [of] + list(prog.closures_of(of.npath)) for bb in x.reachable() if x.blocks[bb]["term"]["k"] == "switch")
+        if not first_ok:
+            bad_t.append("the first pass does not select the lines with roots[i] == i")
+        rep.check(not bad_t, R, "reflow-root=first-pass-root", "the table of wrapping roots built by %s is not the root the first pass wraps a line from: %s" % (short(T0.npath), "; ".join(bad_t)),
+                  where="%s:%d" % (T0.file, T0.line), instance={"form": "one table for both passes", "builder": short(T0.npath)})
+        return
+
     def classify(cons, line_hint=None):
         """(P, G, V, foreign atoms) of a row: P = parent Some/None, G = parent line found Some/None, V = parent Voided True/False; atoms
         about anything else are foreign (the line's own type `Eof` is reported separately)"""
